@@ -1,5 +1,5 @@
 CONSTANTS
-  MaxEntries = 2
+  MaxEntries = 3
   MaxDeps = 2
   MaxLen = 8
   Mode = "structured"
